@@ -124,6 +124,17 @@ def legacy_layout(rng, repo, kind=None):
         later = L.add_artifact(sdesc, artifact_type="application/vnd.example.sbom", n=9)
         expect[dimg].add(later[1])
         L.add_fallback(dimg, rds + [later[2]])
+    elif kind == "coexist3":
+        # a converted response and a fallback tag that overlap in two or more referrers (merging must still list each once)
+        more = [L.add_artifact(sdesc, artifact_type="application/vnd.example.sig", n=10 + j) for j in range(3 - min(n, 3))]
+        allr = rds + [m_[2] for m_ in more]
+        expect[dimg] |= {m_[1] for m_ in more}
+        if rng.random() < 0.5:
+            L.add_response(dimg, allr[:2])
+            L.add_fallback(dimg, allr)
+        else:
+            L.add_response(dimg, allr)
+            L.add_fallback(dimg, allr[:rng.randrange(2, len(allr) + 1)])
     elif kind == "valid-plus-mixed":
         # an accurate fallback tag for the first subject, and a fallback tag of the second subject that also lists
         # one more referrer of the first
